@@ -17,7 +17,8 @@ RULE = ('seeded random (F, Q, dt): n 1..24 (mpmath subset n<=12 in quick), F sta
         'nilpotent / zero / random with |F|dt up to ~20, PSD Q of rank 0..n and scale 1e-6..1e3, '
         'dt in [0,10] incl. 0 and tiny; class integer: whole-number F / Q / dt typed as integers in any mix; after each case the same F, Q arrays updated in place between three further calls; partitions of dt into 1..8 sub-steps; non-trivial = not '
         '(n<=2 integrator or the single random 15x15 at one dt); distinct = generator parameters'
-        ' Round 4: Q magnitudes 1e-26..1e-9 (navigation-grade densities) and 1e4..1e12; at the end of every case the caller overwrites every matrix it was handed back (shared constant matrices of a zero-step / zero-noise shortcut reach the next call).')
+        ' Round 4: Q magnitudes 1e-26..1e-9 (navigation-grade densities) and 1e4..1e12; at the end of every case the caller overwrites every matrix it was handed back (shared constant matrices of a zero-step / zero-noise shortcut reach the next call).'
+        ' Round 5: class exchange - generators with zero row sums (marginally stable, singular, weakly diagonally dominant) at steps of 1..6 time constants.')
 ASSUMPTIONS = ['mpmath Taylor expm at 50 digits is exact relative to float64',
                'rounding bound kappa = exp(|F|_2 dt) * (1+|F|dt)  (conditioning of the block exponential)']
 REQUIRED_OBS = ['scale_invariance_checked', 'returned_arrays_overwritten', 'float_route_compared', 'in_place_updates_between_calls', 'integer_typed_inputs', 'post_checked', 'mp_compared', 'composition_checked', 'zero_step_checked', 'ambient_calls_checked']
